@@ -32,7 +32,8 @@ def bfs(make_world, alphabet, depth, allow=None, max_transitions=None,
         seen = {w.canon(): ()}
     finally:
         w.close()
-    obs_of = {(): ()}          # history -> observations (divergence check)
+    # keyed by repr: (1,) and (True,) and (1.0,) are equal as dict keys
+    obs_of = {repr(()): (0, ())}    # history -> observations (divergence check)
     frontier = [()]
     first_replayed = False
     for level in range(1, depth + 1):
@@ -62,10 +63,10 @@ def bfs(make_world, alphabet, depth, allow=None, max_transitions=None,
                         if problems:
                             raise Divergence(
                                 'prefix %r of %r: %r' % (h, hist, problems))
-                    if tuple(map(repr, prefix_obs)) != obs_of[hist]:
+                    if tuple(map(repr, prefix_obs)) != obs_of[repr(hist)][1]:
                         raise Divergence('history %r replayed differently:\n'
                                          '%r\n%r' % (hist, prefix_obs,
-                                                     obs_of[hist]))
+                                                     obs_of[repr(hist)][1]))
                     o, problems = w.apply(op)
                     part['transitions'] += 1
                     part['executions'] += 1
@@ -85,7 +86,8 @@ def bfs(make_world, alphabet, depth, allow=None, max_transitions=None,
                     c = w.canon()
                     if c not in seen:
                         seen[c] = h2
-                        obs_of[h2] = tuple(map(repr, prefix_obs + [o]))
+                        obs_of[repr(h2)] = (len(h2),
+                                           tuple(map(repr, prefix_obs + [o])))
                         nxt.append(h2)
                         if not first_replayed:
                             # proof obligation (a): replay one execution and
@@ -94,7 +96,7 @@ def bfs(make_world, alphabet, depth, allow=None, max_transitions=None,
                             w2 = make_world()
                             try:
                                 again = [w2.apply(h)[0] for h in h2]
-                                if tuple(map(repr, again)) != obs_of[h2]:
+                                if tuple(map(repr, again)) != obs_of[repr(h2)][1]:
                                     raise Divergence(
                                         'replay of %r differs' % (h2,))
                                 if w2.canon() != c:
@@ -108,7 +110,7 @@ def bfs(make_world, alphabet, depth, allow=None, max_transitions=None,
         part['depth_done'] = level
         frontier = nxt
         for h in list(obs_of):
-            if len(h) < level:
+            if obs_of[h] and obs_of[h][0] < level:
                 del obs_of[h]
         if not frontier:
             part['fixpoint'] = True
